@@ -57,6 +57,10 @@ func (c *regexpSimplifyChecker) VisitExpr(x ast.Expr) {
 		return
 	}
 
+	if !isPkgFunc(c.ctx, call.Fun, "regexp") {
+		return
+	}
+
 	switch qualifiedName(call.Fun) {
 	case "regexp.Compile", "regexp.MustCompile":
 		cv := c.ctx.TypesInfo.Types[call.Args[0]].Value
